@@ -468,15 +468,7 @@ func agreeCreated(r *engine.Run) {
 	if f == nil {
 		return
 	}
-	var createdCh, deleteCh ssa.Value
-	for _, p := range f.Params {
-		switch p.Name() {
-		case "createdChan":
-			createdCh = p
-		case "deleteChan":
-			deleteCh = p
-		}
-	}
+	createdCh, deleteCh := paramRole(f, "createdChan"), paramRole(f, "deleteChan")
 	if createdCh == nil || deleteCh == nil {
 		r.Anchor(rule, fmt.Errorf("unresolved anchor: created/deleted channels of %s", fn(f)))
 		return
@@ -488,17 +480,15 @@ func agreeCreated(r *engine.Run) {
 		if arm == nil {
 			continue
 		}
-		var cs, ds []*ssa.Send
-		for b := range arm.blocks {
-			for _, in := range b.Instrs {
-				if s, ok := in.(*ssa.Send); ok {
-					if s.Chan == createdCh {
-						cs = append(cs, s)
-					}
-					if s.Chan == deleteCh {
-						ds = append(ds, s)
-					}
-				}
+		var cs, ds []chanEvent
+		for _, ev := range chanEvents(f, createdCh) {
+			if arm.blocks[ev.At.Block()] {
+				cs = append(cs, ev)
+			}
+		}
+		for _, ev := range chanEvents(f, deleteCh) {
+			if arm.blocks[ev.At.Block()] {
+				ds = append(ds, ev)
 			}
 		}
 		if len(cs) == 0 || len(ds) == 0 {
@@ -508,14 +498,17 @@ func agreeCreated(r *engine.Run) {
 		// the condition guarding the deleted-send must also guard the created-send
 		good := true
 		for _, d := range ds {
-			dAtoms, ok1 := engine.AtomsOn(f, d.Block())
-			if !ok1 {
-				good = false
-				continue
-			}
 			for _, c := range cs {
-				cAtoms, ok2 := engine.AtomsOn(f, c.Block())
-				if !ok2 {
+				if d.Helper != nil || c.Helper != nil {
+					// inside a helper: both or neither carry the hash-changed guard
+					if (d.GuardA != nil) != (c.GuardA != nil) {
+						good = false
+					}
+					continue
+				}
+				dAtoms, ok1 := engine.AtomsOn(f, d.At.Block())
+				cAtoms, ok2 := engine.AtomsOn(f, c.At.Block())
+				if !ok1 || !ok2 {
 					good = false
 					continue
 				}
@@ -529,7 +522,7 @@ func agreeCreated(r *engine.Run) {
 				}
 			}
 		}
-		r.Check(good, rule, fn(f)+"|*"+kind+" arm", r.P.Pos(cs[0].Pos()), "created and deleted are recorded under the same hash-changed condition",
+		r.Check(good, rule, fn(f)+"|*"+kind+" arm", r.P.Pos(cs[0].At.Pos()), "created and deleted are recorded under the same hash-changed condition",
 			"the node's hash is recorded as created even when it did not change (the previous hash is recorded deleted only when it changed): a rollback then deletes a node that already existed at the checkpoint (SaveRoot; rewrite a key with its old content; Commit; Rollback: checkpoint no longer resolvable)")
 	}
 	if n < 3 {
@@ -690,12 +683,7 @@ func domMarked(r *engine.Run, rule string) {
 	if f == nil {
 		return
 	}
-	var nodeP ssa.Value
-	for _, p := range f.Params {
-		if p.Name() == "node" {
-			nodeP = p
-		}
-	}
+	nodeP := paramRole(f, "node")
 	arms := typeArms(f, nodeP)
 	n := 0
 	for _, kind := range []string{"routingNode", "shortNode"} {
